@@ -102,6 +102,27 @@ def run(ck):
         rz = [i for i in fn.walk() if fn.nodes[i].get('callee', '').endswith('basic_string<char>::resize')]
         ok = any(const_value(fn, fn.call_args(i)[0]) == 255 for i in rz)
         ck.ob('C31.shape', 'C31.shape/%s/truncate-255' % tag, ok, fn.loc(), '%s truncates the suggested name to 255 bytes' % tag)
+    # nothing is added to a sanitised name: the string a sanitizer works on grows from no other text
+    GROW = ('operator+=', 'append', 'push_back', 'insert', 'assign', 'replace', 'operator=', 'swap', 'emplace_back')
+    for fn, tag, names in ((cs, 'cli', None), (PN.fn('ephemeralnet::Node::store_chunk'), 'node', ('base',))):
+        grow = []
+        for i in fn.walk():
+            nd = fn.nodes[i]
+            c = nd.get('callee') or ''
+            if not c.startswith('std::basic_string<char>::') or c.split('::')[-1] not in GROW:
+                continue
+            recv = fn.receiver(i) if nd['k'] == 'CXXMemberCallExpr' else (fn.kids(i)[1] if len(fn.kids(i)) > 1 else None)
+            if recv is None:
+                continue
+            rn = fn.nodes[fn.strip(recv)]
+            if rn['k'] != 'DeclRefExpr' or rn.get('dk') != 'Var':
+                continue
+            if names is not None and rn.get('n') not in names:
+                continue
+            grow.append((i, rn.get('n'), c.split('::')[-1]))
+        ck.ob('C31.shape', 'C31.shape/%s/no-text-added' % tag, not grow, fn.loc(grow[0][0]) if grow else fn.loc(),
+              'the %s sanitizer only removes, replaces and truncates: nothing is appended or assigned to the name after it was taken from the '
+              'filename component%s' % (tag, (' — found %s on `%s`' % (grow[0][2], grow[0][1])) if grow else ''))
     # CLI: empty result for "", ".", ".."
     emp = any(cs.nodes[i].get('callee', '').endswith('::empty') for i in cs.walk())
     ck.ob('C31.shape', 'C31.shape/cli/empty-rejected', emp, cs.loc(), 'the CLI sanitizer returns the empty name for an empty component')
